@@ -147,6 +147,11 @@ func genProfile(t *simrt.Tape, o genOpts) *profile.Profile {
 		if o.odd && t.Bool(K, 5) {
 			l.Address = ^uint64(0)
 		}
+		if o.tieRich && i > 0 && t.Bool(K, 12) {
+			// two locations at one address with different line information
+			// (two builds of a program merged into one profile)
+			l.Address, l.Mapping = p.Location[i-1].Address, p.Location[i-1].Mapping
+		}
 		p.Location = append(p.Location, l)
 	}
 	ns := 1 + t.Choose(K, o.maxSamples)
